@@ -934,6 +934,9 @@ func runFamily(w *World, p map[string]int, prop string) {
 	if prop == "C12" && len(w.Violations) == 0 {
 		checkRestore(w, inst, t, prop)
 	}
+	if prop == "C09" && len(w.Violations) == 0 && !inst.Dead && !w.S.CrashRequested && t.Bool(param(p, "readmitpct", 30)) {
+		readmitAfterEviction(w, inst, prop)
+	}
 	w.Sample = fmt.Sprintf("%s wallets=%d ops=%d height=%d forks=%d unconfirmed=%d addresses=%d knobs={mat:%d frozen:%d warmup:%d bindlock:%d gap:%d}", prop, nW, nOps,
 		w.Node.Tip().Height, w.Stats["op.fork"], w.Stats["op.unconfirmed"], w.Stats["check.new_address"],
 		consensus.CoinbaseMaturity, consensus.MinFrozenPeriod, consensus.MASSIP0002WarmUpHeight, consensus.MASSIP0002BindingLockedPeriod, w.Knobs.GapLimit)
@@ -1115,4 +1118,118 @@ func lostToBlockRival(w *World, tx *wire.MsgTx) (rival, loser wire.Hash, found b
 //go:norace
 func readmittedDetail(h, loser, rival wire.Hash) string {
 	return fmt.Sprintf("transaction %s, announced again with all parents confirmed and no rival, is not in the pending set: it (or its ancestor %s) lost to %s in a block that was reorganised away later, and the handler's in-memory set of known hashes still holds it", h, loser, rival)
+}
+
+// readmitAfterEviction: a pending parent P (pays the wallet) and its pending
+// child C (spends that wallet coin) lose to a rival R of P that confirms in a
+// block; a depth-1 reorganisation then confirms P instead of R. C is valid
+// again (parent confirmed, no rival) and the node announces it again: it must
+// be pending again and the coin it spends flagged.
+//
+//go:norace
+func readmitAfterEviction(w *World, inst *Instance, class string) {
+	t := w.Plan
+	if _, ok := w.S.Quiesce(20000); !ok || !w.AllDelivered() {
+		return
+	}
+	var cands []*WalletState
+	for _, id := range inst.SortedWalletIDs() {
+		ws := inst.Wallets[id]
+		if ws.HD != nil && !ws.Removing && !ws.Uncertain && len(ws.Issued) > 0 {
+			cands = append(cands, ws)
+		}
+	}
+	if len(cands) == 0 {
+		return
+	}
+	ws := cands[t.Int(len(cands))]
+	var hk [32]byte
+	copy(hk[:], ws.HD.Addr(ws.Issued[t.Int(len(ws.Issued))].Index).ScriptHash)
+	tip := w.Node.Tip()
+	var src *genCoin
+	inPool := map[wire.OutPoint]bool{}
+	for _, m := range w.Gen.pendingMempool() {
+		for _, in := range m.TxIn {
+			inPool[in.PreviousOutPoint] = true
+		}
+	}
+	// a spendable coin of this wallet (the wallet tracks conflicts on its own coins)
+	w.Gen.AddWalletParty(ws)
+	for _, c := range sortedCoins(w.Gen.utxoAt(tip)) {
+		if c.owner >= 2 && w.Gen.Parties[c.owner].Wallet == ws && c.cls == ClassStd && c.value > 5000000 && !inPool[c.op] && tip.Height+1 >= c.height && tip.Height+1-c.height >= c.lock() {
+			src = c
+			break
+		}
+	}
+	if src == nil {
+		return
+	}
+	amt := int64(2000000 + t.Int(1000))
+	nobody := func() [32]byte { h, _ := w.Gen.pickPayee(t, 0); return h }
+	P := wire.NewMsgTx()
+	P.AddTxIn(wire.NewTxIn(&src.op, dummyWitness()))
+	P.AddTxOut(wire.NewTxOut(amt, stdScript(hk)))
+	P.AddTxOut(wire.NewTxOut(src.value-amt-100000, stdScript(nobody())))
+	C := wire.NewMsgTx()
+	C.AddTxIn(wire.NewTxIn(&wire.OutPoint{Hash: P.TxHash(), Index: 0}, dummyWitness()))
+	C.AddTxOut(wire.NewTxOut(amt-100000, stdScript(nobody())))
+	R := wire.NewMsgTx()
+	R.AddTxIn(wire.NewTxIn(&src.op, dummyWitness()))
+	R.AddTxOut(wire.NewTxOut(src.value-200000, stdScript(nobody())))
+	for _, m := range []*wire.MsgTx{P, C} {
+		w.AnnounceTx(m)
+		w.Logf("announce unconfirmed %s", describeTx(m))
+	}
+	if _, ok := w.S.Quiesce(20000); !ok || !w.AllDelivered() {
+		return
+	}
+	pend, ok := w.PendingSet(inst)
+	if !ok {
+		return
+	}
+	if _, in := pend[C.TxHash()]; !in {
+		return // not accepted in the first place (nothing to readmit)
+	}
+	// R confirms: P and C are evicted
+	b := w.Gen.NewBlock(t, tip, []*wire.MsgTx{R})
+	w.Node.Attach(b)
+	w.SyncTips()
+	w.Announce(b)
+	w.logBlock("rival-confirms", b)
+	if _, ok := w.S.Quiesce(20000); !ok || !w.AllDelivered() {
+		return
+	}
+	if pend, ok = w.PendingSet(inst); !ok {
+		return
+	}
+	if _, in := pend[C.TxHash()]; in {
+		w.Violate(class+".conflicted-still-pending", "transaction %s, child of %s which lost to the confirmed %s, is still pending", C.TxHash(), P.TxHash(), R.TxHash())
+		return
+	}
+	// the block with R is reorganised away; P confirms on the new branch
+	w.Node.DeleteTip()
+	w.SyncTips()
+	b1 := w.Gen.NewBlock(t, tip, []*wire.MsgTx{P})
+	b2 := w.Gen.NewBlock(t, b1, nil)
+	for _, nb := range []*BlockRec{b1, b2} {
+		w.Node.Attach(nb)
+		w.SyncTips()
+	}
+	w.Announce(b2)
+	w.logBlock("parent-confirms-instead", b1)
+	if _, ok := w.S.Quiesce(20000); !ok || !w.AllDelivered() {
+		return
+	}
+	w.AnnounceTx(C)
+	w.Logf("announce again %s", describeTx(C))
+	if _, ok := w.S.Quiesce(20000); !ok || !w.AllDelivered() {
+		return
+	}
+	if pend, ok = w.PendingSet(inst); !ok {
+		return
+	}
+	w.Stat("probe.evicted_transaction_announced_again_after_reorg")
+	if _, in := pend[C.TxHash()]; !in {
+		w.Violate(class+".readmitted-transaction-ignored", "%s", readmittedDetail(C.TxHash(), P.TxHash(), R.TxHash()))
+	}
 }
